@@ -11,8 +11,8 @@
 using namespace sim;
 using namespace mpt;
 
-enum { OP_ID, OP_ARM, OP_REPLY, OP_DEFER, OP_DREPLY, OP_DRELEASE, OP_ADDREF, OP_UNREF, OP_NEWCTX, OP_REQ, OP_DELIVER, OP_SERVE, OP_FLUSH, OP_DREPLY2, OP_SYNC };
-static const char *const OPS[] = {"ID", "ARM", "REPLY", "DEFER", "DEFERRED_REPLY", "RELEASE_HANDLE", "ADDREF_CTX", "UNREF_CTX", "NEW_CTX", "REQUEST", "DELIVER", "SERVE", "FLUSH", "LATE_REPLY", "SYNC", 0};
+enum { OP_ID, OP_ARM, OP_REPLY, OP_DEFER, OP_DREPLY, OP_DRELEASE, OP_ADDREF, OP_UNREF, OP_NEWCTX, OP_REQ, OP_DELIVER, OP_SERVE, OP_FLUSH, OP_DREPLY2, OP_SYNC, OP_REASSIGN };
+static const char *const OPS[] = {"ID", "ARM", "REPLY", "DEFER", "DEFERRED_REPLY", "RELEASE_HANDLE", "ADDREF_CTX", "UNREF_CTX", "NEW_CTX", "REQUEST", "DELIVER", "SERVE", "FLUSH", "LATE_REPLY", "SYNC", "REASSIGN", 0};
 enum { FL_NONE, FL_ALLOC, FL_REJECT, FL_SHORT, FL_EAGAIN, FL_DROP, FL_DUP, FL_SENDFAIL };
 static const char *const FAULTS[] = {"none", "allocfail", "reject", "short", "eagain", "drop", "duplicate", "sendfail", 0};
 
@@ -49,6 +49,15 @@ static int transport_send(void *ptr, const reply_data *rd, const message *msg) {
 }
 
 static void *CCp;
+
+// allocation fault attached to an op: fa 1..15 = the fa-th allocation of the op fails once; fa >= 17 = every allocation from the (fa-16)-th on fails
+struct AllocFault { uint64_t n; bool from; };
+static AllocFault alloc_fault(const Op &op, int fl_alloc) {
+	AllocFault a = {0, false};
+	if (op.fault != fl_alloc) return a;
+	if (op.fa >= 17) { a.n = (uint64_t) (op.fa - 16); a.from = true; } else a.n = (uint64_t) std::max<int64_t>(op.fa, 1);
+	return a;
+}
 
 struct ReplyWorld : World {
 	ReplyWorld() {
@@ -100,7 +109,7 @@ struct ReplyWorld : World {
 			op.kind = k < 4 ? OP_REQ : k < 7 ? OP_DELIVER : k < 10 ? OP_SERVE : OP_FLUSH;
 			op.a = (int64_t) r.next(); op.b = r.below(6) | (r.below(5) << 8); op.c = r.chance(1, 3) ? 1 : r.chance(1, 2) ? 1000000 : r.range(1, 40);
 			if (iof && op.kind == OP_FLUSH && r.chance(1, 2)) { op.fault = r.chance(1, 2) ? FL_SHORT : FL_EAGAIN; op.fa = r.range(1, 5); }
-			if (iof && op.kind == OP_SERVE && r.chance(1, 4)) { op.fault = FL_ALLOC; op.fa = r.range(1, 4); }
+			if (iof && op.kind == OP_SERVE && r.chance(1, 4)) { op.fault = FL_ALLOC; op.fa = r.range(1, 4) + (r.chance(1, 3) ? 16 : 0); }
 			p.ops.push_back(op);
 		}
 	}
@@ -125,6 +134,8 @@ struct ReplyWorld : World {
 		case 1: { Reenter s; mpt_context_reply(ev->reply, 0, "%s", "done"); } return 0;
 		case 2: { int r1, r2; { Reenter s; r1 = mpt_context_reply(ev->reply, 0, "%s", "first"); r2 = mpt_context_reply(ev->reply, 1, "%s", "second"); }
 			if (r1 >= 0 && r2 >= 0) pend("second-reply", "two explicit replies to request %llx were both accepted", (unsigned long long) q->id); return 0; }
+		case 4: { Bytes b = {(uint8_t) msgtype::Answer, 0, 'l', 'o', 'n', 'g'}; while (b.size() < 700) b.push_back((uint8_t) ('a' + b.size() % 23));     // larger than the initial write queue
+			message m; m.base = b.data(); m.used = b.size(); m.cont = 0; m.clen = 0; { Reenter s; ev->reply->reply(&m); } return 0; }
 		case 3: return -3;      // handler fails without answering: the default reply carries the error
 		default: return 0;      // handler succeeds without answering: default reply
 		}
@@ -161,6 +172,7 @@ struct ReplyWorld : World {
 				auto has = [&](const char *t) { size_t n = strlen(t); return std::search(body.begin(), body.end(), t, t + n) != body.end(); };
 				if (q->faulted) continue;        // answered while an allocation failed: which of the answers made it is not constrained
 				if (q->behaviour == 1 && !has("done")) fail("wrong-answer", "explicit reply to %llx does not carry the handler's text (%zu bytes)", (unsigned long long) id, body.size());
+				if (q->behaviour == 4 && (!has("long") || body.size() != 700)) fail("wrong-answer", "long reply to %llx arrived with %zu of 700 bytes", (unsigned long long) id, body.size());
 				if (q->behaviour == 2 && !has("first")) fail("wrong-answer", "reply to %llx is not the first of the two answers given (%zu bytes)", (unsigned long long) id, body.size());
 				if (q->behaviour == 0 || q->behaviour == 3) {
 					Bytes want = {(uint8_t) msgtype::Answer, (uint8_t) (q->behaviour == 3 ? -3 : 0)};
@@ -170,14 +182,15 @@ struct ReplyWorld : World {
 			if (final) for (auto &r : reqs) if (r.id && r.handled && !r.faulted && !seen.count(r.id)) fail("no-reply", "request %llx was dispatched (behaviour %d) but never answered", (unsigned long long) r.id, r.behaviour);
 			if (final && b != reply_stream.size()) fail("bad-frame", "responder left an unterminated frame of %zu bytes on the wire", reply_stream.size() - b);
 		};
-		auto serve = [&](int64_t failn = 0) -> int {
-			int n; { Sut s(failn); n = in->next(POLLIN); if (g.fired) { st.hit("fault:allocfail_in_poll"); failn = 0; } }
+		auto serve = [&](AllocFault af = AllocFault{0, false}) -> int {
+			uint64_t failn = af.n; bool from = af.from;
+			int n; { Sut s(failn, from); n = in->next(POLLIN); if (g.fired) { st.hit("fault:allocfail_in_poll"); if (!from) failn = 0; } }
 			int d, guard = 0;
 			do {
 				std::vector<int> before; for (auto &r : reqs) before.push_back(r.handled);
-				bool fired; { Sut s(failn); SUT_GUARD_ABORT(d = in->dispatch(responder_handler, &R)); fired = g.fired; }
+				bool fired; { Sut s(failn, from); SUT_GUARD_ABORT(d = in->dispatch(responder_handler, &R)); fired = g.fired; }
 				check_pending();
-				if (fired) { st.hit("fault:allocfail_in_serve"); failn = 0; for (size_t k = 0; k < reqs.size(); ++k) if (reqs[k].handled && !before[k]) reqs[k].faulted = true; }
+				if (fired) { st.hit(from ? "fault:allocfail_persistent_in_serve" : "fault:allocfail_in_serve"); if (!from) failn = 0; for (size_t k = 0; k < reqs.size(); ++k) if (reqs[k].handled && !before[k]) reqs[k].faulted = true; }
 			} while (d >= 0 && (d & 0x10000) && ++guard < 64);
 			log.ev("SERVE next=%d dispatch=%d", n, d);
 			return d;
@@ -202,7 +215,7 @@ struct ReplyWorld : World {
 				uint64_t id = sel == 0 ? 0 : sel == 1 ? 1 : sel == 2 ? lim : 1 + ((uint64_t) op.a % lim);
 				bool dup = false; for (auto &r : reqs) if (r.id == id && id) dup = true;
 				if (dup) break;
-				SReq q; q.id = id; q.behaviour = (int) ((op.b >> 8) & 0xff) % 4;
+				SReq q; q.id = id; q.behaviour = (int) ((op.b >> 8) & 0xff) % 5;
 				q.payload = {0x04, 0x00}; for (int k = 0; k < 4; ++k) q.payload.push_back((uint8_t) (serial >> (8 * k))); ++serial;
 				size_t extra = (size_t) op.c % 30; for (size_t k = 0; k < extra; ++k) q.payload.push_back((uint8_t) (op.a >> (k % 8)));
 				Bytes msg(idlen); for (unsigned k = 0; k < idlen; ++k) msg[idlen - 1 - k] = (uint8_t) (id >> (8 * k));
@@ -215,19 +228,20 @@ struct ReplyWorld : World {
 				break;
 			}
 			case OP_DELIVER: { size_t n = simio::deliver(up, (size_t) std::max<int64_t>(op.c, 1)); log.ev("DELIVER %zu", n); if (n == 1) st.hit("fault:single_byte_delivery"); else if (n) st.hit("fault:segment_cut"); outcome = n > 0; break; }
-			case OP_SERVE: outcome = serve(op.fault == FL_ALLOC ? std::max<int64_t>(op.fa, 1) : 0) >= 0; judge_replies(false); break;
+			case OP_SERVE: outcome = serve(alloc_fault(op, FL_ALLOC)) >= 0; judge_replies(false); break;
 			case OP_FLUSH: if (op.fault) st.hit(std::string("fault:writev_") + FAULTS[op.fault]); flush(op.fault, op.fa); judge_replies(false); outcome = 1; break;
 			}
 			st.state(760 + op.kind, (int) std::min<size_t>(reqs.size(), 3) * 4 + (op.fault ? 2 : 0) + (idlen > 2), outcome);
 		}
 		// drain: everything is delivered, served and flushed without faults
 		simio::deliver(up, 1 << 20);
-		for (int i = 0; i < 200; ++i) {
+		for (int i = 0, idle = 0; i < 100000 && idle < 3; ++i) {
 			size_t handled = 0; for (auto &r : reqs) handled += r.handled;
-			int d = serve(); flush(0, 0);
+			uint64_t written = simio::chan(down)->written;
+			serve();
+			for (int k = 0; k < 100000 && flush(0, 0) > 0; ++k) {}
 			size_t handled2 = 0; for (auto &r : reqs) handled2 += r.handled;
-			if (handled2 == reqs.size() && d >= 0 && !(d & 0x10000)) { for (int k = 0; k < 4096 && flush(0, 0) > 0; ++k) {} break; }
-			if (i > 40 && handled == handled2) break;
+			idle = (handled == handled2 && written == simio::chan(down)->written) ? idle + 1 : 0;
 		}
 		for (auto &r : reqs) if (!r.handled) fail("request-lost", "request %llx was delivered completely but never dispatched", (unsigned long long) r.id);
 		collect();
@@ -236,22 +250,53 @@ struct ReplyWorld : World {
 		if (ledger_live()) fail("leak", "%zu block(s) allocated after the stream input was released: %s", ledger_live(), ledger_describe().c_str());
 	}
 
+	// ---- enumeration: scripted round trips (request, deliver, serve, answer, flush, deliver back, take the reply) repeated three times
+	// over layer {L2, L3} x id width 1..4 x reply intake {dispatch, sync} x 7 responder behaviours x requester handler {ok, fails}
+	// x allocation fault on the first serve {none, 1st, 2nd, 3rd allocation once, everything from the 1st / 2nd on}
+	uint64_t sweep_count(int) override { return 2 * 4 * 2 * 7 * 2 * 6; }
+	void sweep_plan(uint64_t idx, int, Plan &p) override {
+		unsigned layer = 2 + idx % 2; idx /= 2;
+		unsigned idlen = 1 + idx % 4; idx /= 4;
+		unsigned intake = idx % 2; idx /= 2;
+		unsigned beh = idx % 7; idx /= 7;
+		unsigned cbfail = idx % 2; idx /= 2;
+		unsigned fv = idx % 6;
+		p.set("layer", layer); p.set("idlen", idlen);
+		if (layer == 2) { p.set("chancap", 4096); p.set("sync", intake); p.set("big", 0); }
+		auto add = [&](int kind, int side, int64_t a = 0, int64_t b = 0, int64_t c = 0) { Op o; o.kind = kind; o.a = a; o.b = side | b; o.c = c; p.ops.push_back(o); return p.ops.size() - 1; };
+		const int A = 0, B = 1;
+		for (unsigned round = 0; round < 3; ++round) {
+			unsigned bh = (beh + 3 * round) % 7; bool awaited = round != 2;
+			add(OP_REQ, A, (cbfail && round == 0) ? 0 : 4, (int64_t) (bh << 8) | (awaited ? 1 << 16 : 0), 7 + round);
+			add(OP_DELIVER, A, 0, 0, layer == 2 ? 1000000 : 0);
+			size_t sv = add(OP_SERVE, B);
+			if (round == 0 && fv) { p.ops[sv].fault = FL_ALLOC; p.ops[sv].fa = fv <= 3 ? (int64_t) fv : (int64_t) (16 + fv - 3); }
+			add(OP_DREPLY2, B, 0);
+			add(OP_FLUSH, B);
+			add(OP_DELIVER, B, 0, 0, layer == 2 ? 1000000 : 0);
+			add(intake ? OP_SYNC : OP_SERVE, A);
+		}
+		add(OP_SERVE, A); add(OP_SERVE, B);
+	}
+
 	// ---- layer L2: two real connections (stream backend) that both send requests and serve the peer's
 	void gen_conn(Rng &r, Plan &p, int tier) {
 		p.set("layer", 2);
 		p.set("idlen", r.range(1, 4));
 		static const int caps[] = {5, 32, 4096, 4096};
 		p.set("chancap", r.pick(caps));
-		p.set("sync", r.chance(1, 3));
+		bool syncm = r.chance(1, 3);
+		p.set("sync", syncm);
 		p.set("big", r.chance(1, 3));      // payloads up to 250 bytes: the 256 byte write queue has to grow while earlier messages are still pending
 		int nops = (int) r.range(1, tier ? 90 : 45); bool iof = r.chance(1, 2), af = r.chance(1, 3);
 		for (int i = 0; i < nops; ++i) {
 			Op op; unsigned k = (unsigned) r.below(16);
 			op.kind = k < 4 ? OP_REQ : k < 7 ? OP_DELIVER : k < 11 ? OP_SERVE : k < 13 ? OP_FLUSH : k < 15 ? OP_DREPLY2 : OP_SYNC;
+			if (syncm && (k == 10 || k == 14)) op.kind = OP_SYNC;     // the requester takes its replies mostly through sync
 			// a: random bits, b: side | behaviour << 8 | await << 16, c: size / count
 			op.a = (int64_t) r.next(); op.b = r.below(2) | (r.below(7) << 8) | ((r.chance(1, 6) ? 0 : 1) << 16); op.c = r.chance(1, 3) ? 1 : r.chance(1, 2) ? 1000000 : r.range(1, 40);
 			if (iof && op.kind == OP_FLUSH && r.chance(1, 2)) { op.fault = r.chance(1, 2) ? FL_SHORT : FL_EAGAIN; op.fa = r.range(1, 5); }
-			if (af && (op.kind == OP_SERVE || op.kind == OP_REQ || op.kind == OP_DREPLY2) && r.chance(1, 4)) { op.fault = FL_ALLOC; op.fa = r.range(1, 5); }
+			if (af && (op.kind == OP_SERVE || op.kind == OP_REQ || op.kind == OP_DREPLY2) && r.chance(1, 4)) { op.fault = FL_ALLOC; op.fa = r.range(1, 5); if (op.kind == OP_SERVE && r.chance(1, 3)) op.fa += 16; }
 			p.ops.push_back(op);
 		}
 	}
@@ -261,6 +306,8 @@ struct ReplyWorld : World {
 		int handled = 0, callbacks = 0, cancelled = 0;
 		int allowed_handled = 1, allowed_callbacks = 1;   // datagram layer: number of request / reply datagrams delivered
 		int replies_made = 0; bool net_faulted = false;
+		bool transport_gone = false;        // the responder's connection was moved to another socket after this request was dispatched
+		int cb_result = 0;                  // what the requester's reply handler returns (a failing handler must not disturb later replies)
 		bool late_dropped = false;
 		std::vector<reply_context_detached *> more_late;   // a duplicated request is deferred once per dispatch
 		reply_context_detached *late = 0;    // handle of a deferred answer, held by the peer's handler
@@ -280,7 +327,7 @@ struct ReplyWorld : World {
 		C.log->ev("    %s: reply for request r%u (id %llx): %zu bytes [%s]", C.peer[side].name, q.serial, (unsigned long long) q.cid, len, hex(body, 16).c_str());
 		if (++q.callbacks > q.allowed_callbacks) { pend("second-delivery", "requester %s got %d answers for request r%u", C.peer[side].name, q.callbacks, q.serial); return 0; }
 		if (!q.handled) { pend("wrong-requester", "requester %s got an answer for request r%u which the peer has not seen", C.peer[side].name, q.serial); return 0; }
-		if (q.faulted) return 0;
+		if (q.faulted) return q.cb_result;
 		std::string want = answer_text(q);
 		bool text = std::search(body.begin(), body.end(), want.begin(), want.end()) != body.end();
 		// does it carry some other request's answer?
@@ -289,7 +336,8 @@ struct ReplyWorld : World {
 		if (q.behaviour == 6 && !q.faulted && len != 2 + 300) { pend("wrong-answer", "long answer to r%u arrived with %zu of 302 bytes", q.serial, len); return 0; }
 		if (expl && !text && !q.late_dropped) { pend("wrong-answer", "answer to r%u (behaviour %d) lacks the responder's text", q.serial, q.behaviour); return 0; }
 		if (!expl) { Bytes w = {(uint8_t) msgtype::Answer, (uint8_t) (q.behaviour == 3 ? -3 : 0)}; if (body != w) pend("wrong-answer", "default answer to r%u is [%s]", q.serial, hex(body, 12).c_str()); }
-		return 0;
+		if (q.cb_result < 0) C.st->hit("probe:reply_handler_failed");
+		return q.cb_result;
 	}
 	// request handler of the serving side: arg = serving side
 	static int conn_handler(void *arg, event *ev) {
@@ -345,15 +393,15 @@ struct ReplyWorld : World {
 			for (int s = 0; s < 2; ++s) { const std::vector<int> &b = s ? b1 : b0; for (size_t k = 0; k < C.peer[s].sent.size(); ++k) if (C.peer[s].sent[k].handled && (k >= b.size() || !b[k])) C.peer[s].sent[k].faulted = true; }
 		};
 		auto snapshot = [&](int s) { std::vector<int> v; for (auto &r : C.peer[s].sent) v.push_back(r.handled); return v; };
-		auto serve = [&](int side, int64_t failn) -> int {
-			Peer &P = C.peer[side];
+		auto serve = [&](int side, AllocFault af) -> int {
+			Peer &P = C.peer[side]; uint64_t failn = af.n;
 			int n; { Sut s; n = mpt_stream_poll(P.srm, POLLIN, 0); }
 			int d, guard = 0;
 			do {
 				std::vector<int> b0 = snapshot(0), b1 = snapshot(1);
-				bool fired; { Sut s(failn); SUT_GUARD_ABORT(d = mpt_connection_dispatch(P.con, conn_handler, (void *) (uintptr_t) side)); fired = g.fired; }
+				bool fired; { Sut s(failn, af.from); SUT_GUARD_ABORT(d = mpt_connection_dispatch(P.con, conn_handler, (void *) (uintptr_t) side)); fired = g.fired; }
 				check_pending();
-				if (fired) { st.hit("fault:allocfail_in_dispatch"); failn = 0; mark_faulted(b0, b1); }
+				if (fired) { st.hit(af.from ? "fault:allocfail_persistent_in_dispatch" : "fault:allocfail_in_dispatch"); if (!af.from) failn = 0; mark_faulted(b0, b1); }
 			} while (d >= 0 && (d & 0x10000) && ++guard < 64);
 			log.ev("SERVE %s poll=%d dispatch=%d", P.name, n, d);
 			return d;
@@ -369,6 +417,7 @@ struct ReplyWorld : World {
 		auto late_reply = [&](int side, CReq &q, int64_t failn, bool drop) {
 			// the serving side answers a deferred request now
 			std::string t = answer_text(q); Bytes b = {(uint8_t) msgtype::Answer, 0}; b.insert(b.end(), t.begin(), t.end());
+			if (q.serial & 1) while (b.size() < 330) b.push_back((uint8_t) ('A' + b.size() % 19));     // beyond the 256 byte scratch area of a datagram reply
 			message m; m.base = b.data(); m.used = b.size(); m.cont = 0; m.clen = 0;
 			int r; bool fired; { Sut s(failn); SUT_GUARD_ABORT(r = q.late->reply(drop ? 0 : &m)); fired = g.fired; }
 			check_pending();
@@ -385,7 +434,7 @@ struct ReplyWorld : World {
 			switch (op.kind) {
 			case OP_REQ: {
 				if (P.sent.size() >= 10) break;
-				CReq q; q.serial = serial++; q.behaviour = (int) ((op.b >> 8) & 0xff) % 7; q.awaited = (op.b >> 16) & 1;
+				CReq q; q.serial = serial++; q.behaviour = (int) ((op.b >> 8) & 0xff) % 7; q.awaited = (op.b >> 16) & 1; q.cb_result = ((op.a >> 2) & 3) == 0 ? -1 : 0;
 				q.payload = {0x08, 0x00}; for (int k = 0; k < 4; ++k) q.payload.push_back((uint8_t) (q.serial >> (8 * k)));
 				size_t extra = big ? (size_t) ((uint64_t) op.a >> 5) % 250 : (size_t) op.c % 40; for (size_t k = 0; k < extra; ++k) q.payload.push_back((uint8_t) (op.a >> (k % 8)));
 				P.sent.push_back(q); CReq &Q = P.sent.back(); size_t idx = P.sent.size() - 1;
@@ -415,7 +464,7 @@ struct ReplyWorld : World {
 				break;
 			}
 			case OP_DELIVER: { size_t n = simio::deliver(P.wchan, (size_t) std::max<int64_t>(op.c, 1)); log.ev("DELIVER from %s: %zu", P.name, n); if (n == 1) st.hit("fault:single_byte_delivery"); else if (n) st.hit("fault:segment_cut"); outcome = n > 0; break; }
-			case OP_SERVE: outcome = serve(side, failn) >= 0; break;
+			case OP_SERVE: outcome = serve(side, alloc_fault(op, FL_ALLOC)) >= 0; break;
 			case OP_FLUSH: if (op.fault) st.hit(std::string("fault:writev_") + FAULTS[op.fault]); flush(side, op.fault, op.fa); outcome = 1; break;
 			case OP_DREPLY2: {
 				// side answers one of the requests it deferred (sent by the other side)
@@ -440,7 +489,7 @@ struct ReplyWorld : World {
 			uint64_t before = simio::S.readv_calls * 0 + simio::chan(ab)->read + simio::chan(ba)->read + simio::chan(ab)->written + simio::chan(ba)->written;
 			for (int s = 0; s < 2; ++s) {
 				simio::deliver(C.peer[s].wchan, 1 << 20);
-				serve(s, 0);
+				serve(s, AllocFault{0, false});
 				for (auto &r : C.peer[s ^ 1].sent) if (r.late) late_reply(s, r, 0, false);
 				for (int k = 0; k < 4096 && flush(s, 0, 0) > 0; ++k) simio::deliver(C.peer[s].wchan, 1 << 20);
 			}
@@ -469,10 +518,11 @@ struct ReplyWorld : World {
 		for (int i = 0; i < nops; ++i) {
 			Op op; unsigned k = (unsigned) r.below(16);
 			op.kind = k < 4 ? OP_REQ : k < 8 ? OP_DELIVER : k < 12 ? OP_SERVE : k < 14 ? OP_DREPLY2 : k < 15 ? OP_SYNC : OP_FLUSH;
+			if (k == 15 && r.chance(1, 4)) op.kind = OP_REASSIGN;    // the connection is moved to another socket while answers may still be owed
 			op.a = (int64_t) r.next(); op.b = r.below(2) | (r.below(7) << 8) | ((r.chance(1, 6) ? 0 : 1) << 16); op.c = r.chance(1, 2) ? 0 : r.range(0, 5);
 			if (net && op.kind == OP_DELIVER && r.chance(1, 3)) { op.fault = r.chance(1, 2) ? FL_DROP : FL_DUP; }
 			if (net && op.kind == OP_REQ && r.chance(1, 8)) { op.fault = FL_SENDFAIL; }
-			if (af && !op.fault && (op.kind == OP_SERVE || op.kind == OP_REQ || op.kind == OP_DREPLY2) && r.chance(1, 4)) { op.fault = FL_ALLOC; op.fa = r.range(1, 5); }
+			if (af && !op.fault && (op.kind == OP_SERVE || op.kind == OP_REQ || op.kind == OP_DREPLY2) && r.chance(1, 4)) { op.fault = FL_ALLOC; op.fa = r.range(1, 5); if (op.kind == OP_SERVE && r.chance(1, 3)) op.fa += 16; }
 			p.ops.push_back(op);
 		}
 	}
@@ -516,12 +566,13 @@ struct ReplyWorld : World {
 			reply = false;
 			if (d.size() < idlen) return 0;
 			uint64_t id = d[0] & 0x7f; for (unsigned k = 1; k < idlen; ++k) id = (id << 8) | d[k];
-			if (d[0] & 0x80) { reply = true; CReq *q = 0; for (auto &r : C.peer[side ^ 1].sent) if (r.cid == id && r.cid) q = &r; return q; }
+			if (d[0] & 0x80) { reply = true; CReq *q = 0;      // ids are reused once a connection forgot its commands: prefer the request that still waits for its answer
+				for (auto &r : C.peer[side ^ 1].sent) if (r.cid == id && r.cid && (!q || r.handled > r.replies_made)) q = &r; return q; }
 			Bytes body(d.begin() + idlen, d.end());
 			for (auto &r : C.peer[side].sent) if (r.payload == body) return &r;
 			return 0;
 		};
-		size_t seen_sent[2] = {0, 0};
+		size_t seen_sent[2] = {0, 0}; bool split = false;
 		// everything a side has put on the wire since the last look must be one of its requests or exactly one reply per dispatch
 		auto audit_wire = [&](int side) {
 			simio::DChan *c = simio::dchan(D[side].wchan);
@@ -532,18 +583,19 @@ struct ReplyWorld : World {
 				bool reply; CReq *q = classify(side, d, reply);
 				if (!reply) { if (!q) fail("invented", "%s sent a datagram that is neither a reply nor one of its requests (%zu bytes [%s])", C.peer[side].name, d.size(), hex(d, 16).c_str()); continue; }
 				if (!q) fail("foreign-id", "%s sent a reply whose id no request of the peer carries [%s]", C.peer[side].name, hex(d, 12).c_str());
+				if (q->transport_gone) fail("wrong-requester", "the answer to request r%u went out on a socket the connection was given after the request had arrived", q->serial);
 				if (++q->replies_made > q->handled) fail("second-reply", "request r%u was dispatched %d time(s) but %d replies went out", q->serial, q->handled, q->replies_made);
 			}
 		};
-		auto serve = [&](int side, int64_t failn) -> int {
-			DPeer &P = D[side]; int d = 0;
+		auto serve = [&](int side, AllocFault af) -> int {
+			DPeer &P = D[side]; int d = 0; uint64_t failn = af.n;
 			for (int guard = 0; guard < 16; ++guard) {
 				int n; { Sut s; n = P.in->next(POLLIN); }
 				if (!(P.con->out.state & 0x20 /* received */) && n <= 0 && simio::dchan(P.rchan)->avail.empty()) break;
 				std::vector<int> b0 = snapshot(0), b1 = snapshot(1);
-				bool fired; { Sut s(failn); SUT_GUARD_ABORT(d = P.in->dispatch(conn_handler, (void *) (uintptr_t) side)); fired = g.fired; }
+				bool fired; { Sut s(failn, af.from); SUT_GUARD_ABORT(d = P.in->dispatch(conn_handler, (void *) (uintptr_t) side)); fired = g.fired; }
 				check_pending();
-				if (fired) { st.hit("fault:allocfail_in_dispatch"); failn = 0; mark_faulted(b0, b1); }
+				if (fired) { st.hit(af.from ? "fault:allocfail_persistent_in_dispatch" : "fault:allocfail_in_dispatch"); if (!af.from) failn = 0; mark_faulted(b0, b1); }
 				log.ev("SERVE %s next=%d dispatch=%d", C.peer[side].name, n, d);
 				audit_wire(side);
 				if (d < 0) break;
@@ -552,6 +604,7 @@ struct ReplyWorld : World {
 		};
 		auto late_reply = [&](int side, CReq &q, int64_t failn, bool drop) {
 			std::string t = answer_text(q); Bytes b = {(uint8_t) msgtype::Answer, 0}; b.insert(b.end(), t.begin(), t.end());
+			if (q.serial & 1) while (b.size() < 330) b.push_back((uint8_t) ('A' + b.size() % 19));     // beyond the 256 byte scratch area of a datagram reply
 			message m; m.base = b.data(); m.used = b.size(); m.cont = 0; m.clen = 0;
 			int r; bool fired; { Sut s(failn); SUT_GUARD_ABORT(r = q.late->reply(drop ? 0 : &m)); fired = g.fired; }
 			check_pending();
@@ -582,9 +635,10 @@ struct ReplyWorld : World {
 			switch (op.kind) {
 			case OP_REQ: {
 				if (Q.sent.size() >= 10) break;
-				CReq q; q.serial = serial++; q.behaviour = (int) ((op.b >> 8) & 0xff) % 7; q.awaited = (op.b >> 16) & 1; q.allowed_handled = 0; q.allowed_callbacks = 0;
+				CReq q; q.serial = serial++; q.behaviour = (int) ((op.b >> 8) & 0xff) % 7; q.awaited = (op.b >> 16) & 1; q.allowed_handled = 0; q.allowed_callbacks = 0; q.cb_result = ((op.a >> 2) & 3) == 0 ? -1 : 0;
 				q.payload = {0x08, 0x00}; for (int k = 0; k < 4; ++k) q.payload.push_back((uint8_t) (q.serial >> (8 * k)));
 				size_t extra = (size_t) ((uint64_t) op.a >> 3) % 40; for (size_t k = 0; k < extra; ++k) q.payload.push_back((uint8_t) (op.a >> (k % 8)));
+				if (split) q.net_faulted = true;      // after a reassignment the two sides no longer talk to each other
 				Q.sent.push_back(q); CReq &R = Q.sent.back(); size_t idx = Q.sent.size() - 1;
 				if (op.fault == FL_SENDFAIL) { simio::get(P.fd)->wfault = simio::F_EPIPE; st.hit("fault:send_refused"); }
 				bool fired = false; int ar = 0; ssize_t r = 0;
@@ -611,13 +665,28 @@ struct ReplyWorld : World {
 				break;
 			}
 			case OP_DELIVER: outcome = deliver(side, (size_t) op.c, op.fault); break;
-			case OP_SERVE: outcome = serve(side, failn) >= 0; break;
+			case OP_SERVE: outcome = serve(side, alloc_fault(op, FL_ALLOC)) >= 0; break;
 			case OP_FLUSH: { int n; { Sut s; n = P.in->next(POLLOUT); } log.ev("FLUSH %s -> %d", Q.name, n); audit_wire(side); outcome = 1; break; }
 			case OP_DREPLY2: {
 				std::vector<CReq *> pendg; for (auto &r : C.peer[side ^ 1].sent) if (r.late) pendg.push_back(&r);
 				if (pendg.empty()) break;
 				CReq &q = *pendg[(size_t) ((uint64_t) op.a >> 8) % pendg.size()];
 				outcome = late_reply(side, q, failn, q.behaviour == 5 && (op.a & 2)) >= 0;
+				break;
+			}
+			case OP_REASSIGN: {
+				// side's remote output is given a fresh socket (to somebody else): whatever was owed on the old one must not appear on the new one
+				int nr = simio::new_dchan(), nw = simio::new_dchan(); int fd0 = simio::new_dgram_fd(nr, nw);
+				SockSource src; src.fd = fd0; int rc; { Sut s; SUT_GUARD_ABORT(rc = P.obj->set_property(0, &src)); }
+				{ Sut s; close(fd0); }
+				check_pending();
+				log.ev("REASSIGN %s -> %d", Q.name, rc);
+				if (rc < 0) { st.hit("probe:reassign_refused"); break; }
+				st.hit("probe:reassigned");
+				P.rchan = nr; P.wchan = nw; P.fd = P.con->out.sock._id; seen_sent[side] = 0; split = true;
+				P.con->out._idlen = (uint8_t) idlen;
+				for (int s2 = 0; s2 < 2; ++s2) for (auto &r : C.peer[s2].sent) { r.net_faulted = true; if (s2 != side) r.transport_gone = true; }
+				outcome = 1;
 				break;
 			}
 			case OP_SYNC: {
@@ -638,7 +707,7 @@ struct ReplyWorld : World {
 			}
 			for (int s = 0; s < 2; ++s) {
 				size_t before = simio::dchan(D[s].rchan)->received;
-				serve(s, 0);
+				serve(s, AllocFault{0, false});
 				for (auto &r : C.peer[s ^ 1].sent) if (r.late) { late_reply(s, r, 0, false); moved = true; }
 				if (simio::dchan(D[s].rchan)->received != before) moved = true;
 			}
